@@ -30,3 +30,10 @@ void c05_ycc_rgb(int simd, int cs, u8 *y, u8 *cb, u8 *cr, u8 *rgb, unsigned widt
   if (simd) jsimd_ycc_rgb_convert(&dc, planes, 0, out, 1);
   else ycc_rgb_convert(&dc, planes, 0, out, 1);
 }
+
+void c05_ycc_rgb_rows(int simd, int cs, u8 **y, u8 **cb, u8 **cr, u8 **rgb, unsigned width, int nrows)
+{
+  JSAMPARRAY planes[3]; planes[0] = y; planes[1] = cb; planes[2] = cr;
+  dc.output_width = width; dc.out_color_space = (J_COLOR_SPACE)cs;
+  if (simd) jsimd_ycc_rgb_convert(&dc, planes, 0, rgb, nrows); else ycc_rgb_convert(&dc, planes, 0, rgb, nrows);
+}
